@@ -19,7 +19,7 @@ func init() {
 	Registry["C10"] = Spec{
 		Fn:          c10,
 		Level:       "fault_enumeration",
-		Rule:        "scenarios of C04 plus the handshake; for every gate of a fault-free pilot run (before/after each client write, before each server packet, inside each callback, at each internal hook point) the caller's context is cancelled (or its deadline made to pass) at that gate; during the handshake also while the addendum write is blocked by a peer that stopped reading after its hello; additionally the server stalls after k bytes of each packet (mid-packet silence, k sampled over the stream) and the context is cancelled during the stall; a context already done before the call; a peer that stops reading (blocked write); short, default (3 s) and disabled (NoTimeout) read timeouts. Oracle: the call returns (stuck-state evidence: reader blocked with no deadline armed while the context is done), the error matches the context's error, a Cancel packet is written whenever the transport is healthy (cancel / deadline / stall plans) and is the single byte 03 in its own Write call, the connection is closed exactly once, at most one further server packet is begun after the cancel instant, no library goroutine outlives the call. Non-trivial = the cancellation took effect before the scenario would have completed; distinct = (scenario, gate, action)",
+		Rule:        "scenarios of C04 plus the handshake; for every gate of a fault-free pilot run (before/after each client write, before each server packet, inside each callback, at each internal hook point) the caller's context is cancelled (or its deadline made to pass) at that gate, inside callbacks also together with the callback returning an error of its own and with a context cancelled with a cause; during the handshake also while the addendum write is blocked by a peer that stopped reading after its hello; additionally the server stalls after k bytes of each packet (mid-packet silence, k sampled over the stream) and the context is cancelled during the stall; a context already done before the call; a peer that stops reading (blocked write); short, default (3 s) and disabled (NoTimeout) read timeouts. Oracle: the call returns (stuck-state evidence: reader blocked with no deadline armed while the context is done), the error matches the context's error, a Cancel packet is written whenever the transport is healthy (cancel / deadline / stall plans) and is the single byte 03 in its own Write call, the connection is closed exactly once, at most one further server packet is begun after the cancel instant, no library goroutine outlives the call. Non-trivial = the cancellation took effect before the scenario would have completed; distinct = (scenario, gate, action)",
 		Assumptions: []string{"prompt = returns within the read timeout (100 ms here) plus a generous wall-clock watchdog (10 s) whose firing alone is inconclusive; it becomes a violation only together with stuck-state evidence (context done, reader blocked without deadline, nothing queued)"},
 		MinDistinct: 200,
 	}
@@ -40,6 +40,9 @@ func c10(r *core.Run) {
 		pilot.Sim.Client.Close()
 		var plans []*fault
 		for gi, g := range gates {
+			if strings.HasPrefix(g, "cb:") {
+				plans = append(plans, &fault{Kind: "cancel+callback-error", Gate: g, K: int64(gi)})
+			}
 			plans = append(plans, &fault{Kind: "cancel", Gate: g})
 			if gi%2 == 0 || !r.Quick() {
 				plans = append(plans, &fault{Kind: "deadline", Gate: g}) // the caller's deadline passes at this gate
@@ -116,6 +119,10 @@ func c10One(r *core.Run, sc scn, seed int64, f *fault) {
 		var cancel context.CancelFunc
 		if f.Kind == "deadline" {
 			ctx, cancel = newManualDeadlineCtx()
+		} else if f.Kind == "cancel+callback-error" && f.K%2 == 1 {
+			// cancelled with a cause: ctx.Err() is still context.Canceled, which is what must match
+			c2, cc := context.WithCancelCause(context.Background())
+			ctx, cancel = c2, func() { cc(errors.New("the caller's own reason")) }
 		} else {
 			ctx, cancel = context.WithCancel(context.Background())
 		}
